@@ -1,2 +1,284 @@
-/- Oracle for C12 (stub: replaced when the property's model is built). -/
-def main : IO Unit := pure ()
+/-
+  Oracle for C12 (line protocol with harness/cmd/c12 and tools/props/c12.py).
+
+  in : PROG <id> w=<bits> fuel=<n> steps=<n> salt=<n> decls=<0/1 string or -> body=<s-expr…>
+  out: M <id> asm=<l1;l2;…>            model compiler output (`none` → asm=!reject)
+       MR <id> regs=<n> ram=<n> rom=<n> ops=<a,b,…>   what Usage_Monitor should have recorded
+       SRC <id> done=<0|1> outs=<p:v,…>  goEval
+       MRUN <id> end=<0|1> outs=<p:v,…>  model code on the ISA interpreter
+  in : IMPL <id> w=… steps=… salt=… asm=<l1;l2;…>     the real compiler's assembly text
+  out: IRUN <id> parse=<ok|bad:<line>> end=<0|1> outs=<p:v,…>
+  in : PROTO <id> acts=<a1,a2,…>     allocator protocol scenario (see `parseAct`)
+  out: PM <id> rank=<n> fixed_final=<0|1> fixed_unique=<0|1> cur_deadlock=<0|1> cur_forced=<ok|hang> ids=<…>
+-/
+import BMV.Bondgo
+import BMV.BondgoProto
+import BMV.Lines
+open BMV.Lines
+
+namespace C12
+open BMV.Bondgo
+
+/-! ### s-expression reader for statements -/
+
+def tokenize (s : String) : List String :=
+  let s := (s.replace "(" " ( ").replace ")" " ) "
+  (s.splitOn " ").filter (· ≠ "")
+
+partial def parseExpr : List String → Option (Expr × List String)
+  | "(" :: "lit" :: n :: ")" :: r => some (.lit (nat! n), r)
+  | "(" :: "var" :: n :: ")" :: r => some (.var (nat! n), r)
+  | "(" :: "ior" :: n :: ")" :: r => some (.ioread (nat! n), r)
+  | "(" :: "add" :: r =>
+    match parseExpr r with
+    | some (a, r1) => match parseExpr r1 with
+      | some (b, ")" :: r2) => some (.add a b, r2)
+      | _ => none
+    | none => none
+  | "(" :: "mul" :: r =>
+    match parseExpr r with
+    | some (a, r1) => match parseExpr r1 with
+      | some (b, ")" :: r2) => some (.mul a b, r2)
+      | _ => none
+    | none => none
+  | _ => none
+
+def parseCond : List String → Option (Cond × List String)
+  | "(" :: "eq" :: r =>
+    match parseExpr r with
+    | some (a, r1) => match parseExpr r1 with
+      | some (b, ")" :: r2) => some (.eq a b, r2)
+      | _ => none
+    | none => none
+  | _ => none
+
+partial def parseStmt : List String → Option (Stmt × List String)
+  | "skip" :: r => some (.skip, r)
+  | "(" :: "seq" :: r =>
+    match parseStmt r with
+    | some (a, r1) => match parseStmt r1 with
+      | some (b, ")" :: r2) => some (.seq a b, r2)
+      | _ => none
+    | none => none
+  | "(" :: "asg" :: x :: r =>
+    match parseExpr r with
+    | some (e, ")" :: r1) => some (.assign (nat! x) e, r1)
+    | _ => none
+  | "(" :: "inc" :: x :: ")" :: r => some (.inc (nat! x), r)
+  | "(" :: "dec" :: x :: ")" :: r => some (.dec (nat! x), r)
+  | "(" :: "iow" :: o :: r =>
+    match parseExpr r with
+    | some (e, ")" :: r1) => some (.iowrite (nat! o) e, r1)
+    | _ => none
+  | "(" :: "if" :: r =>
+    match parseCond r with
+    | some (c, r1) => match parseStmt r1 with
+      | some (t, ")" :: r2) => some (.ifThen c t, r2)
+      | _ => none
+    | none => none
+  | "(" :: "ife" :: r =>
+    match parseCond r with
+    | some (c, r1) => match parseStmt r1 with
+      | some (t, r2) => match parseStmt r2 with
+        | some (e, ")" :: r3) => some (.ifElse c t e, r3)
+        | _ => none
+      | none => none
+    | none => none
+  | "(" :: "for" :: r =>
+    match parseStmt r with
+    | some (b, ")" :: r1) => some (.loop none b, r1)
+    | _ => none
+  | "(" :: "forc" :: r =>
+    match parseCond r with
+    | some (c, r1) => match parseStmt r1 with
+      | some (b, ")" :: r2) => some (.loop (some c) b, r2)
+      | _ => none
+    | none => none
+  | _ => none
+
+/-! ### assembly text reader (for the implementation's output) -/
+
+def regOf (s : String) : Option Nat :=
+  if s.startsWith "r" then (s.drop 1).toString.toNat? else none
+def inOf (s : String) : Option Nat :=
+  if s.startsWith "i" then (s.drop 1).toString.toNat? else none
+def outOf (s : String) : Option Nat :=
+  if s.startsWith "o" then (s.drop 1).toString.toNat? else none
+
+def parseInstr (l : String) : Option Instr :=
+  match fields l with
+  | ["clr", r] => (regOf r).map .clr
+  | ["rset", r, n] => do let r ← regOf r; let n ← n.toNat?; pure (.rset r n)
+  | ["cpy", d, s] => do let d ← regOf d; let s ← regOf s; pure (.cpy d s)
+  | ["m2r", r, m] => do let r ← regOf r; let m ← m.toNat?; pure (.m2r r m)
+  | ["r2m", r, m] => do let r ← regOf r; let m ← m.toNat?; pure (.r2m r m)
+  | ["add", d, s] => do let d ← regOf d; let s ← regOf s; pure (.add d s)
+  | ["mult", d, s] => do let d ← regOf d; let s ← regOf s; pure (.mult d s)
+  | ["inc", r] => (regOf r).map .inc
+  | ["dec", r] => (regOf r).map .dec
+  | ["je", a, b, t] => do let a ← regOf a; let b ← regOf b; let t ← t.toNat?; pure (.je a b t)
+  | ["jz", r, t] => do let r ← regOf r; let t ← t.toNat?; pure (.jz r t)
+  | ["j", t] => t.toNat?.map .j
+  | ["i2r", r, i] => do let r ← regOf r; let i ← inOf i; pure (.i2r r i)
+  | ["r2o", r, o] => do let r ← regOf r; let o ← outOf o; pure (.r2o r o)
+  | _ => none
+
+def parseAsm (t : String) : Except String (List Instr) :=
+  let ls := if t = "" then [] else t.splitOn ";"
+  ls.foldr (fun l acc =>
+    match acc, parseInstr l with
+    | .error e, _ => .error e
+    | .ok is, some i => .ok (i :: is)
+    | .ok _, none => .error l) (.ok [])
+
+/-! ### environment and printing -/
+
+/-- input values: a fixed pseudo-random function of (salt, port, read index) -/
+def envOf (salt : Nat) (port k : Nat) : Nat :=
+  let x := (salt * 1000003 + port * 7919 + k * 104729 + 12345) * 2654435761 % 4294967296
+  (x / 8191 + x) % 4294967296
+
+def outsStr (os : List (Nat × Nat)) : String :=
+  ",".intercalate (os.map fun (p, v) => s!"{p}:{v}")
+
+def b2s (b : Bool) : String := if b then "1" else "0"
+
+def kvNat (fs : List String) (k : String) (d : Nat) : Nat :=
+  match kv fs k with | some v => v.toNat?.getD d | none => d
+
+def bodyOf (line : String) : String :=
+  match line.splitOn " body=" with
+  | [_, b] => b
+  | _ => ""
+
+def asmOf (line : String) : String :=
+  match line.splitOn " asm=" with
+  | [_, b] => b
+  | _ => ""
+
+/-- least number of instructions after which `code` has produced exactly `target` (and, when
+    `needEnd`, has left the program); `none` if that does not happen within `maxSteps` -/
+def findN (env : Nat → Nat → Nat) (w : Nat) (code : List Instr) (target : List (Nat × Nat)) (needEnd : Bool)
+    (maxSteps : Nat) : Option Nat := Id.run do
+  let mut c : Cfg := {}
+  for k in [0:maxSteps + 1] do
+    if c.outs.length == target.length && (!needEnd || decide (code.length ≤ c.pc)) then
+      return (if c.outs.reverse == target then some k else none)
+    if c.outs.length > target.length then return none
+    match isaStep env w code c with
+    | some c' => c := c'
+    | none => return none
+  return none
+
+def doProg (line : String) (fs : List String) : List String × Option (String × Nat) :=
+  let id := fs.getD 1 "?"
+  let w := kvNat fs "w" 8
+  let fuel := kvNat fs "fuel" 8
+  let steps := kvNat fs "steps" 2000
+  let salt := kvNat fs "salt" 0
+  let ds := (kv fs "decls").getD "-"
+  let decls : List Bool := if ds = "-" then [] else ds.toList.map (· = '1')
+  match parseStmt (tokenize (bodyOf line)) with
+  | some (body, []) =>
+    let p : Prog := { decls, body }
+    let env := envOf salt
+    let src := goEval env w fuel p
+    let srcLine := s!"SRC {id} done={b2s src.2} outs={outsStr src.1}"
+    match compile p with
+    | none => ([s!"M {id} asm=!reject", srcLine], none)
+    | some code =>
+      let run := runCode env w code steps
+      let ramN := (decls.filter (· = false)).length
+      let ns := findN env w code src.1 src.2 steps
+      ([ s!"M {id} asm={";".intercalate (code.map Instr.text)}",
+        s!"MR {id} regs={regCount code} ram={ramN} rom={code.length} ops={",".intercalate (opcodes code)}",
+        srcLine,
+        s!"MRUN {id} end={b2s run.2} outs={outsStr run.1} nstar={match ns with | some n => toString n | none => "-"}" ],
+       ns.map fun n => (id, n))
+  | _ => ([s!"M {id} asm=!parse-error"], none)
+
+def doImpl (known : List (String × Nat)) (line : String) (fs : List String) : List String :=
+  let id := fs.getD 1 "?"
+  let w := kvNat fs "w" 8
+  -- when the model's code reproduces goEval's outputs after n* instructions, the implementation's
+  -- code gets 2·n* + 200 instructions to do the same (`exact=1`); otherwise the default budget
+  let (steps, exact) := match known.lookup id with
+    | some n => (2 * n + 200, true)
+    | none => (kvNat fs "steps" 2000, false)
+  let salt := kvNat fs "salt" 0
+  match parseAsm (asmOf line) with
+  | .error l => [s!"IRUN {id} parse=bad:{l.replace " " "_"} end=0 outs="]
+  | .ok code =>
+    let run := runCode (envOf salt) w code steps
+    -- the same code on a machine whose `je` does nothing (what procbuilder implements today)
+    let nopCode := (List.range code.length).zip code |>.map fun (k, i) =>
+      match i with | .je _ _ _ => Instr.j (k + 1) | x => x
+    let run2 := runCode (envOf salt) w nopCode steps
+    [s!"IRUN {id} parse=ok end={b2s run.2} outs={outsStr run.1} budget={steps} exact={b2s exact}",
+     s!"IRUNJENOP {id} end={b2s run2.2} outs={outsStr run2.1}"]
+
+/-! ### protocol scenarios -/
+open BMV.BondgoProto in
+/-- (action in the unchanged order, allocation effect) -/
+def parseAct (s : String) : Option Act :=
+  if s = "u" then some .use
+  else if s = "nr" || s = "nm" then some (.req 0 1)
+  else if s.startsWith "ni" || s.startsWith "no" then
+    some (if (s.drop 2).toString = "0" then .req 0 0 else .req 0 1)
+  else if s.startsWith "rr" || s.startsWith "rm" || s = "ri" || s = "ro" then some (.req 0 0)
+  else if s = "nc" then some (.req 1 2)
+  else if s.startsWith "at" then some (.req 0 2)
+  else none
+
+structure AllocSt where
+  regs : List Nat := []
+  mems : List Nat := []
+  ins : List Nat := []
+  outs : List Nat := []
+
+/-- the id the allocator answers with (`-` where the model does not predict one) -/
+def allocStep (a : AllocSt) (s : String) : AllocSt × String :=
+  if s = "nr" then ({ a with regs := fresh a.regs :: a.regs }, toString (fresh a.regs))
+  else if s = "nm" then ({ a with mems := fresh a.mems :: a.mems }, toString (fresh a.mems))
+  else if s.startsWith "ni" then ({ a with ins := fresh a.ins :: a.ins }, toString (fresh a.ins))
+  else if s.startsWith "no" then ({ a with outs := fresh a.outs :: a.outs }, toString (fresh a.outs))
+  else if s.startsWith "rr" then ({ a with regs := a.regs.erase (nat! (s.drop 2).toString) }, "-")
+  else if s.startsWith "rm" then ({ a with mems := a.mems.erase (nat! (s.drop 2).toString) }, "-")
+  else (a, "-")
+
+open BMV.BondgoProto in
+def doProto (fs : List String) : List String :=
+  let id := fs.getD 1 "?"
+  let toks := commaList ((kv fs "acts").getD "")
+  match toks.mapM parseAct with
+  | none => [s!"PM {id} bad-acts"]
+  | some cur =>
+    let fixed := cur.map Act.fix
+    let r := rank (init fixed)
+    let scheds : List (Nat → Nat) := [fun _ => 0, fun i => i, fun i => i * 7 + 3]
+    let ff := scheds.all fun sc => final (runSched sc r 0 (init fixed))
+    let uniq := (reachable fixed).all fun s => final s || (enabled s).length == 1
+    let dl := canDeadlock cur
+    -- the losing schedule: the assigner's notifications always wait (visitor and monitor first)
+    let forced := runSched (fun _ => 0) (rank (init cur)) 0
+      { (init cur) with }  -- `enabled` lists vReq, aAns, vUse before aUse: index 0 prefers the visitor
+    let ids := (toks.foldl (fun (acc : AllocSt × List String) t =>
+      let (a', x) := allocStep acc.1 t
+      (a', acc.2 ++ [x])) ({}, [])).2
+    [s!"PM {id} rank={r} fixed_final={b2s ff} fixed_unique={b2s uniq} cur_deadlock={b2s dl} cur_forced={if deadlocked forced then "hang" else "ok"} ids={",".intercalate ids}"]
+
+def handle (known : List (String × Nat)) (line : String) : List (String × Nat) × List String :=
+  let fs := fields line
+  match fs with
+  | "PROG" :: _ =>
+    let (ls, k) := doProg line fs
+    (match k with | some x => x :: known | none => known, ls)
+  | "IMPL" :: _ => (known, doImpl known line fs)
+  | "PROTO" :: _ => (known, doProto fs)
+  | _ => (known, [])
+
+end C12
+
+def main : IO Unit := do
+  let _ ← foldStdin ([] : List (String × Nat)) (fun st l => C12.handle st l)
+  pure ()
